@@ -1339,3 +1339,53 @@ pub fn shape_hint(rng: &mut StdRng, schema: &RawSchema, idx: usize, depth: usize
 		},
 	}
 }
+
+/// A target that reads the datum in its schema shape but ignores some sub-trees: struct lacking
+/// fields, ignored map values, unit enum variants for union branches (C12)
+pub fn skip_hint(rng: &mut StdRng, schema: &RawSchema, idx: usize, depth: usize) -> Hint {
+	if depth > 8 {
+		return Hint::Any;
+	}
+	if rng.gen_bool(0.12) {
+		return Hint::Ignored;
+	}
+	match kind_of(&schema[idx]) {
+		Kind::Array(items) => Hint::Seq(Box::new(skip_hint(rng, schema, items, depth + 1))),
+		Kind::Map(values) => {
+			let k = if rng.gen_bool(0.3) { Hint::Ignored } else { Hint::Any };
+			Hint::Map(Box::new(k), Box::new(skip_hint(rng, schema, values, depth + 1)))
+		}
+		Kind::Record(_, fields) => {
+			let mut fs = vec![];
+			for (f, k) in &fields {
+				if rng.gen_bool(0.35) {
+					continue;
+				}
+				fs.push((f.clone(), skip_hint(rng, schema, *k, depth + 1)));
+			}
+			Hint::Struct(fs)
+		}
+		Kind::Union(vs) => {
+			let mut variants = vec![];
+			let mut names = vec![];
+			for &b in &vs {
+				let bk = kind_of(&schema[b]);
+				let name = match &bk {
+					Kind::Record(n, _) | Kind::Enum(n, _) | Kind::Fixed(n, _) => split_name(n).1,
+					Kind::Decimal(_, _, Some(n)) => split_name(n).1,
+					Kind::Decimal(_, _, None) => "Decimal".to_string(),
+					Kind::Duration => "Duration".to_string(),
+					k => branch_name(k, rng).unwrap_or_else(|| "X".into()),
+				};
+				if names.contains(&name) {
+					return Hint::Any;
+				}
+				names.push(name.clone());
+				let vh = if rng.gen_bool(0.4) { VariantHint::Unit } else { VariantHint::Newtype(skip_hint(rng, schema, b, depth + 1)) };
+				variants.push((name, vh));
+			}
+			Hint::Enum(variants)
+		}
+		_ => Hint::Any,
+	}
+}
